@@ -25,6 +25,7 @@ CONSTANTS
   DropKeepsDefault = TRUE
   RenameKeepsDefault = FALSE
   HalfYearIsLong = TRUE
+  RenameAcceptsEmpty = TRUE
 INVARIANTS Inv_Default
 VIEW View
 CHECK_DEADLOCK FALSE
